@@ -64,8 +64,9 @@ package protocol
 //@ iface TxnProcessor.Process
 //@   modifies txnProcessed
 //@   ensures txnProcessed == old(txnProcessed) + 1
+//@ spec genesisOf(v Version) uint64
 //@ iface Version.Protocol
-//@   ensures result.MaxOperationCount == maxOps(this)
+//@   ensures result.MaxOperationCount == maxOps(this) && result.GenesisTime == genesisOf(this)
 //@ iface Version.DocumentValidator
 //@   ensures result != nil
 //@ iface Version.DocumentTransformer
